@@ -7,6 +7,7 @@ CONSTANTS
   LENS = {1, 170, 171, 355}
   HDRS = {"pts", "none", "full"}
   AFS = {"none", "raipcr", "priv10", "big"}
+  BIGS = {FALSE, TRUE}
   PKTS = {"null", "toobig", "pcr"}
 VIEW View
 ACTION_CONSTRAINT ExportEdge
